@@ -253,7 +253,7 @@ pub fn check_output(exp: &Expect, got: &TVal) -> Result<(), (&'static str, Strin
                 let e = exp.t.i[k];
                 if *g != e {
                     if let TolKind::IntSlack(s) = &exp.tol {
-                        if s[k] && (*g - e).abs() <= 1 {
+                        if (*g - e).abs() <= s[k] as i64 {
                             continue;
                         }
                     }
